@@ -119,7 +119,9 @@ class Node(BaseComponent):
                 def event_handle(self, event, *args, **kwargs):
                     yield self.call(remote(event, connection_name))
 
-            self.addHandler(event_handle)
+                # (one handler per channel: handler() records the channel on
+                # the function it decorates)
+                self.addHandler(event_handle)
 
         client_channel = kwargs.pop(
             'channel',
